@@ -82,6 +82,7 @@ int main(int argc, char **argv)
 		}
 	}
 	setvbuf(stdout, nullptr, _IOLBF, 0);
+	{ static char warm[] = "MTBL_READER_MADVISE_RANDOM="; putenv(warm); }	// the slot in environ exists from the start (see make_reader_options)
 	signal(SIGPROF, on_cpu_limit);
 	signal(SIGALRM, on_wall_limit);
 	if (!mfmt::selftest()) { fprintf(stderr, "INFRA-ERROR independent codec self-test failed\n"); return 2; }
